@@ -31,10 +31,15 @@ pub struct RecTerm {
 
 impl RecTerm {
     pub fn new(h: usize, w: usize) -> Self {
+        Self::new_px(h, w, 2)
+    }
+
+    /// `ppc` x `ppc` pixels per cell
+    pub fn new_px(h: usize, w: usize, ppc: usize) -> Self {
         RecTerm {
             size: TerminalSize {
                 cells: Size::new(h, w),
-                pixels: Size::new(h * 2, w * 2),
+                pixels: Size::new(h * ppc, w * ppc),
             },
             cmds: vec![],
             caps: TerminalCaps::default(),
@@ -82,10 +87,10 @@ impl Terminal for RecTerm {
 
 // ------------------------------------------------------------------ alphabet
 
-pub const KIND_NAMES: [&str; 22] = [
+pub const KIND_NAMES: [&str; 23] = [
     "blank", "a", "a/red", "blank/red", "blank/underline", "wide", "wide/red", "img1x1", "img1x2", "img1x1'", "glyph1x2", "img2x1",
     "glyph1x2/underline", "glyphB1x1", "glyph1x2/framed", "U+3000", "U+1680", "tileA", "tileB",
-    "img1x1/red", "blank/reverse-red", "blank/reverse-blue",
+    "img1x1/red", "blank/reverse-red", "blank/reverse-blue", "img1x3",
 ];
 
 
@@ -181,6 +186,8 @@ impl Alphabet {
             // blanks in reverse video: the foreground is what the cell shows
             Cell::new_char(Face::new(Some(RGBA::new(255, 0, 0, 255)), None, FaceAttrs::REVERSE), ' '),
             Cell::new_char(Face::new(Some(RGBA::new(0, 0, 255, 255)), None, FaceAttrs::REVERSE), ' '),
+            // an image three cells wide (an overlap can begin strictly inside its top row)
+            Cell::new_image(image(2, 6, 7)),
         ];
         Alphabet { cells, ptrs }
     }
@@ -195,6 +202,7 @@ impl Alphabet {
             7 | 9 | 13 | 17 | 18 | 19 => Some((1, 1)),
             8 | 10 | 12 | 14 => Some((1, 2)),
             11 => Some((2, 1)),
+            22 => Some((1, 3)),
             _ => None,
         }
     }
@@ -343,7 +351,16 @@ impl Exec {
 
 /// screen obtained by a fresh renderer painting `surf` on a blank terminal
 pub fn from_scratch(alpha: &Alphabet, g: &Grid, surf: &[u8]) -> Screen {
+    from_scratch_px(alpha, g, surf, 2)
+}
+
+/// ... on a terminal with `ppc` x `ppc` pixels per cell
+pub fn from_scratch_px(alpha: &Alphabet, g: &Grid, surf: &[u8], ppc: usize) -> Screen {
     let mut e = Exec::new(g);
+    if ppc != 2 {
+        e.term = RecTerm::new_px(g.h, g.w, ppc);
+        e.renderer = TerminalRenderer::new(&mut e.term, false).expect("renderer");
+    }
     draw(alpha, g, &mut e.renderer, surf);
     e.renderer.frame(&mut e.term).expect("frame");
     e.flush_to_screen(true);
@@ -660,6 +677,45 @@ pub fn grids(tier: Tier) -> Vec<(Grid, usize, bool)> {
     }
 }
 
+// ------------------------------------------------------------------ overlapping images
+
+/// Every surface of a 2x4 grid over {blank, an image two cells high, an image three cells wide}, painted from
+/// scratch: a cell shows one thing, so no two image placements on the screen may cover a common cell (an item that
+/// needs a cell another item already covers is not shown).
+fn overlap_sweep(alpha: &Alphabet, viol: &Violations) -> u64 {
+    use rayon::prelude::*;
+    let g = Grid { h: 2, w: 4, kinds: vec![0, 11, 22] };
+    let surfs = surfaces(&g);
+    surfs.par_iter().for_each(|surf| {
+        let res = catch(|| from_scratch(alpha, &g, surf));
+        let w = || json!({"kind": "overlap", "grid": [g.h, g.w], "surface": surf_json(&g, surf)});
+        match res {
+            Err(p) => viol.add(format!("overlap:{}", p.key()), format!("frame panicked: {} ({}:{})", p.message, p.file, p.line), w()),
+            Ok(screen) => {
+                let rects: Vec<(usize, usize, usize, usize)> = screen
+                    .placements
+                    .iter()
+                    .map(|(id, pos)| (pos.row, pos.row + id.height.div_ceil(2), pos.col, pos.col + id.width.div_ceil(2)))
+                    .collect();
+                for i in 0..rects.len() {
+                    for j in 0..i {
+                        let (a, b) = (rects[i], rects[j]);
+                        if a.0 < b.1 && b.0 < a.1 && a.2 < b.3 && b.2 < a.3 {
+                            viol.add(
+                                "overlap:two-images-on-one-cell",
+                                format!("painted from scratch, the screen holds two image placements that cover a common cell: rows {}..{} cols {}..{} and rows {}..{} cols {}..{}", a.0, a.1, a.2, a.3, b.0, b.1, b.2, b.3),
+                                w(),
+                            );
+                            return;
+                        }
+                    }
+                }
+            }
+        }
+    });
+    surfs.len() as u64
+}
+
 // ------------------------------------------------------------------ the library's own render loop
 
 /// what the scripted terminal hands to the loop's next poll
@@ -671,6 +727,9 @@ pub enum LoopEvent {
     Resize,
     /// no event, but more than 32 frames are pending in the output queue (the loop drops them and clears)
     Behind,
+    /// window-size change that keeps the grid and doubles the pixel size (a font / zoom change): the footprint of
+    /// every image in cells changes
+    Zoom,
 }
 
 #[derive(Debug, Clone, Copy, PartialEq, Eq, Hash)]
@@ -681,6 +740,7 @@ pub enum LoopAction {
 }
 
 const LOOP_EVENTS: [LoopEvent; 4] = [LoopEvent::Timeout, LoopEvent::Wake, LoopEvent::Resize, LoopEvent::Behind];
+const LOOP_EVENTS_ZOOM: [LoopEvent; 5] = [LoopEvent::Timeout, LoopEvent::Wake, LoopEvent::Resize, LoopEvent::Behind, LoopEvent::Zoom];
 const LOOP_ACTIONS: [LoopAction; 3] = [LoopAction::Wait, LoopAction::WaitNoFrame, LoopAction::Sleep0];
 
 /// One handler call of a program run through `Terminal::run_render`: the surface drawn, the action returned, and the
@@ -729,6 +789,10 @@ impl Terminal for LoopTerm {
                 self.pending = 40;
                 None
             }
+            Some(LoopEvent::Zoom) => {
+                self.size.pixels = Size::new(self.size.pixels.height * 2, self.size.pixels.width * 2);
+                Some(TerminalEvent::Resize(self.size))
+            }
         })
     }
     fn size(&self) -> Result<TerminalSize, Error> {
@@ -771,21 +835,24 @@ fn loop_program(alpha: &Alphabet, g: &Grid, surfs: &[Vec<u8>], prog: &[LoopStep]
     let shape = |upto: usize| -> String {
         prog[..upto]
             .iter()
-            .map(|s| format!("{}{}", match s.action { LoopAction::Wait => "W", LoopAction::WaitNoFrame => "N", LoopAction::Sleep0 => "S" }, match s.then { LoopEvent::Timeout => "t", LoopEvent::Wake => "w", LoopEvent::Resize => "r", LoopEvent::Behind => "b" }))
+            .map(|s| format!("{}{}", match s.action { LoopAction::Wait => "W", LoopAction::WaitNoFrame => "N", LoopAction::Sleep0 => "S" }, match s.then { LoopEvent::Timeout => "t", LoopEvent::Wake => "w", LoopEvent::Resize => "r", LoopEvent::Behind => "b", LoopEvent::Zoom => "z" }))
             .collect::<Vec<_>>()
             .join("")
     };
     let mut judge = |screen: &mut Screen, shown: Option<u32>, upto: usize, problems: &mut Vec<(String, String)>| {
+        // pixels per cell after the zoom events delivered so far
+        let zooms = prog[..upto.min(prog.len()).saturating_sub(1)].iter().filter(|s| s.then == LoopEvent::Zoom).count();
+        let ppc = 2usize << zooms;
         if let Some(p) = screen.problems.first().cloned() {
             problems.push((format!("loop:{}:command:{}", shape(upto), crate::prop::decoder_common::squash(&p)), p));
             screen.problems.clear();
         }
         if let Some(s) = shown {
-            let scratch = from_scratch(alpha, g, &surfs[s as usize]);
+            let scratch = from_scratch_px(alpha, g, &surfs[s as usize], ppc);
             if let Some((class, detail)) = diff_class(&scratch, screen) {
                 problems.push((
                     format!("loop:{}:differs-from-repaint:{class}", shape(upto)),
-                    format!("run_render, after handler calls {} (W = Wait, N = WaitNoFrame, S = Sleep(0); then t = timeout, w = wake, r = resize, b = more than 32 frames pending): the screen differs from a from-scratch repaint of the last rendered surface: {detail}", shape(upto)),
+                    format!("run_render, after handler calls {} (W = Wait, N = WaitNoFrame, S = Sleep(0); then t = timeout, w = wake, r = resize, b = more than 32 frames pending, z = resize that doubles the pixel size): the screen differs from a from-scratch repaint of the last rendered surface: {detail}", shape(upto)),
                 ));
             }
         }
@@ -793,7 +860,7 @@ fn loop_program(alpha: &Alphabet, g: &Grid, surfs: &[Vec<u8>], prog: &[LoopStep]
     let res = term.run_render(|t: &mut LoopTerm, _event, mut view| -> Result<surf_n_term::TerminalAction<()>, Error> {
         let st = prog[call];
         // a resize or a frames-drop clears: what the screen shows until the next rendered frame is not demanded
-        if call > 0 && matches!(prog[call - 1].then, LoopEvent::Resize | LoopEvent::Behind) {
+        if call > 0 && matches!(prog[call - 1].then, LoopEvent::Resize | LoopEvent::Behind | LoopEvent::Zoom) {
             shown = None;
         }
         if problems.is_empty() {
@@ -844,13 +911,13 @@ fn loop_json(g: &Grid, surfs: &[Vec<u8>], prog: &[LoopStep]) -> Value {
 }
 
 /// every program of up to `calls` handler calls over all surfaces of the grid
-fn explore_loop(ctx: &Ctx, alpha: &Alphabet, g: &Grid, calls: usize, viol: &Violations) -> u64 {
+fn explore_loop(ctx: &Ctx, alpha: &Alphabet, g: &Grid, calls: usize, events: &[LoopEvent], viol: &Violations) -> u64 {
     use rayon::prelude::*;
     let surfs = surfaces(g);
     let mut steps: Vec<LoopStep> = vec![];
     for s in 0..surfs.len() as u32 {
         for a in LOOP_ACTIONS {
-            for e in LOOP_EVENTS {
+            for e in events.iter().copied() {
                 steps.push(LoopStep { surf: s, action: a, then: e });
             }
         }
@@ -917,11 +984,15 @@ pub fn run(ctx: &Ctx) -> Result<Report, String> {
             "not_expanded_violating_or_capped": r.stats.pruned,
         }));
     }
+    let overlap_surfaces = overlap_sweep(&alpha, &viol);
     // the library's own render loop (`Terminal::run_render`): every program of up to 3 handler calls
     let loop_grid = Grid { h: 1, w: 2, kinds: vec![0, 2, 3, 7] };
     let loop_grid2 = Grid { h: 2, w: 2, kinds: vec![0, 7] };
-    let mut loop_programs = explore_loop(ctx, &alpha, &loop_grid, 3, &viol);
-    loop_programs += explore_loop(ctx, &alpha, &loop_grid2, ctx.tier.pick(2, 3), &viol);
+    let mut loop_programs = explore_loop(ctx, &alpha, &loop_grid, 3, &LOOP_EVENTS, &viol);
+    loop_programs += explore_loop(ctx, &alpha, &loop_grid2, ctx.tier.pick(2, 3), &LOOP_EVENTS, &viol);
+    // an image two cells wide next to a character, with resizes that change the pixel size only
+    let loop_grid3 = Grid { h: 1, w: 2, kinds: vec![0, 1, 8] };
+    loop_programs += explore_loop(ctx, &alpha, &loop_grid3, 3, &LOOP_EVENTS_ZOOM, &viol);
     capped |= ctx.over_cap();
     // logging switched on (the renderer, the glyph rasteriser and the render loop log through `tracing`): two-frame
     // histories over a grid with a glyph and an image, and the two-call run_render programs, on this thread under a
@@ -976,6 +1047,7 @@ pub fn run(ctx: &Ctx) -> Result<Report, String> {
     });
     let mut r = Report::new("model_checking");
     r.set("histories_and_programs_with_logging_on", logged);
+    r.set("overlap_surfaces_2x4", overlap_surfaces);
     r.set("run_render_programs", json!({"programs": loop_programs, "what": "programs of up to 3 handler calls (surface x Wait / WaitNoFrame / Sleep(0) x next event timeout / wake / resize / more than 32 frames pending) through Terminal::run_render on a scripted terminal; after every rendered frame the screen must equal a from-scratch repaint", "grids": ["1x2 over blank, a/red, blank/red, img1x1", "2x2 over blank, img1x1"]}));
     r.set("states", states)
         .set("transitions", transitions)
@@ -1006,6 +1078,24 @@ pub fn replay(w: &Value) -> Result<(bool, String), String> {
     let g = Grid { h: gh, w: gw, kinds: (0..KIND_NAMES.len()).collect() };
     let mut surfs: Vec<Vec<u8>> = vec![];
     let mut hist: Vec<Op> = vec![];
+    if w["kind"].as_str() == Some("overlap") {
+        let mut sf = vec![];
+        for row in w["surface"].as_array().ok_or("surface")? {
+            for cell in row.as_array().ok_or("row")? {
+                sf.push(KIND_NAMES.iter().position(|n| Some(*n) == cell.as_str()).ok_or("kind")? as u8);
+            }
+        }
+        let screen = catch(|| from_scratch(&alpha, &g, &sf)).map_err(|p| format!("frame panicked: {}", p.message))?;
+        let rects: Vec<(usize, usize, usize, usize)> = screen.placements.iter().map(|(id, pos)| (pos.row, pos.row + id.height.div_ceil(2), pos.col, pos.col + id.width.div_ceil(2))).collect();
+        let mut bad = false;
+        for i in 0..rects.len() {
+            for j in 0..i {
+                let (a, b) = (rects[i], rects[j]);
+                bad |= a.0 < b.1 && b.0 < a.1 && a.2 < b.3 && b.2 < a.3;
+            }
+        }
+        return Ok((bad, format!("placements after a from-scratch frame (rows, cols in cells): {:?}", rects)));
+    }
     if w["kind"].as_str() == Some("run_render") {
         let mut prog = vec![];
         for st in w["program"].as_array().ok_or("program")? {
@@ -1017,7 +1107,7 @@ pub fn replay(w: &Value) -> Result<(bool, String), String> {
             }
             surfs.push(sf);
             let action = LOOP_ACTIONS.into_iter().find(|a| Some(format!("{a:?}").as_str()) == st["action"].as_str()).ok_or("action")?;
-            let then = LOOP_EVENTS.into_iter().find(|a| Some(format!("{a:?}").as_str()) == st["then"].as_str()).ok_or("then")?;
+            let then = LOOP_EVENTS_ZOOM.into_iter().find(|a| Some(format!("{a:?}").as_str()) == st["then"].as_str()).ok_or("then")?;
             prog.push(LoopStep { surf: surfs.len() as u32 - 1, action, then });
         }
         return Ok(match catch(|| loop_program(&alpha, &g, &surfs, &prog)) {
